@@ -234,7 +234,10 @@ func (w *Worktree) Open(wt billy.Filesystem) (*git.Repository, error) {
 		return nil, errors.New("worktree fs is nil")
 	}
 
-	fs := w.getDualFS(wt)
+	fs, err := w.getDualFS(wt)
+	if err != nil {
+		return nil, fmt.Errorf("unable to read %s: %w", dotgitDir, err)
+	}
 	if fs == nil {
 		fs = w.storer.Filesystem()
 	}
@@ -278,45 +281,65 @@ func (w *Worktree) Init(wt billy.Filesystem, name string) error {
 		return fmt.Errorf("unable to create .git file: %w", err)
 	}
 
-	fs := w.getDualFS(wt)
-	if fs == nil {
+	fs, err := w.getDualFS(wt)
+	if err != nil || fs == nil {
 		return errors.New("unable to generate dual fs")
 	}
 
 	return nil
 }
 
-func (w *Worktree) getDualFS(wt billy.Filesystem) billy.Filesystem {
+// getDualFS returns the filesystem of a linked worktree's repository: its
+// own git dir layered over the common dir. It returns nil when wt is not a
+// linked worktree (no .git file, or a .git file that does not point into the
+// common dir's worktrees). A .git file that is there but cannot be read is
+// an error: treating it as "not a linked worktree" would open the MAIN
+// worktree's HEAD and index over the linked worktree's files.
+func (w *Worktree) getDualFS(wt billy.Filesystem) (billy.Filesystem, error) {
 	commonDir := w.storer.Filesystem()
+
+	fi, err := wt.Lstat(dotgitDir)
+	if err != nil {
+		if errors.Is(err, fs.ErrNotExist) {
+			return nil, nil
+		}
+		return nil, err
+	}
+	if !fi.Mode().IsRegular() {
+		return nil, nil
+	}
 
 	f, err := wt.Open(dotgitDir)
 	if err != nil {
-		return nil
+		return nil, err
 	}
 	defer func() { _ = f.Close() }()
 
 	data, err := io.ReadAll(io.LimitReader(f, worktreeDotGitMaxSize))
-	if err != nil || len(data) < 9 {
-		return nil
+	if err != nil {
+		return nil, err
+	}
+	if len(data) < 9 {
+		return nil, nil
 	}
 
 	// ensure it is reading gitdir data:
 	if !bytes.Equal(data[:len(gitDir)], []byte(gitDir)) {
-		return nil
+		return nil, nil
 	}
 
 	path := strings.TrimSpace(string(data[8:]))
 	rel, err := filepath.Rel(commonDir.Root(), path)
 	if err != nil {
-		return nil
+		return nil, nil
 	}
 
 	wtGitDir, err := commonDir.Chroot(rel)
 	if err != nil {
-		return nil
+		return nil, nil
 	}
 
-	return dotgit.NewRepositoryFilesystem(wtGitDir, commonDir)
+	return dotgit.NewRepositoryFilesystem(wtGitDir, commonDir), nil
 }
 
 func (w *Worktree) addDotGitDirs(wt billy.Filesystem, name string) error {
